@@ -4039,3 +4039,48 @@ func ruleHeaderRowNotRepeated(c *eng.Ctx) {
 		c.Undec(R, "module#ToMarkdown", token.NoPos, "no table renderer with a header line and a data loop found")
 	}
 }
+
+// ---------------------------------------------------------------------------------------------------------------
+// R7.11 the line structure of a CMap program carries no meaning.
+
+// R7.11 [C07]
+func ruleCMapNotLineBased(c *eng.Ctx) {
+	const R = "R7.11-CMAP-NOT-LINE-BASED"
+	c.Rule(R, "the ToUnicode CMap parser never cuts a part of the CMap program into lines to read the lines one by one (strings.Split with \"\\n\", strings.Lines, bufio.Scanner on text that comes from the stream); what it may split is the output of a function of the package that has laid the entries out itself. A CMap is a PostScript token stream: CR or no line breaks at all, an array that starts on the line after its codes, or two entries on one line are the same program", 1, 1)
+	n := 0
+	for _, fn := range c.P.ModuleFuncs() {
+		if fn.Pkg == nil || fn.Blocks == nil {
+			continue
+		}
+		sp := eng.ShortPath(fn.Pkg.Pkg.Path())
+		inCMap := sp == "font" && strings.Contains(strings.ToLower(c.P.Pos(fn.Pos())), "cmap")
+		if !inCMap && !strings.Contains(sp, eng.PositivePkg) {
+			continue
+		}
+		if strings.Contains(sp, eng.PositivePkg) && !strings.Contains(fn.Name(), "CMap") {
+			continue
+		}
+		for _, ci := range eng.Calls(fn, true, func(name string, _ ssa.CallInstruction) bool {
+			return name == "strings.Split" || name == "strings.SplitN" || name == "strings.Lines" || name == "bufio.NewScanner" || name == "strings.SplitAfter"
+		}) {
+			args := ci.Common().Args
+			if len(args) >= 2 {
+				if sep, ok := eng.ConstString(args[1]); ok && !strings.ContainsAny(sep, "\r\n") {
+					continue // not a split into lines
+				}
+			}
+			n++
+			// laid out by the package itself: the split text is the result of a module function
+			own := false
+			if call, ok := args[0].(*ssa.Call); ok {
+				if cal := eng.StaticCallee(call); cal != nil && eng.InModule(cal) {
+					own = true
+				}
+			}
+			c.Check(own, R, fmt.Sprintf("%s#lines@%s", eng.FuncName(ci.Parent()), c.P.Pos(ci.Pos())), ci.Pos(), "the text that is split was laid out by the package", "a part of the CMap program is cut into lines and read line by line: the same mappings written without line breaks, with CR, or wrapped differently are read differently or not at all")
+		}
+	}
+	if n == 0 {
+		c.Ok(R, "font#cmap-lines", token.NoPos, "the CMap parser does not split its input into lines")
+	}
+}
